@@ -593,6 +593,12 @@ func (w *srvWorld) checkC09(final bool) {
 		if a.Invoke < 0 {
 			continue
 		}
+		if w.restartSeq >= 0 && a.Invoke >= w.restartSeq {
+			// issued (by a handler that outlived its connection) after the server
+			// was started again: it belongs to the new connection, whose traffic
+			// is judged separately
+			continue
+		}
 		if !w.push {
 			if a.Done && a.ErrV != jrpc2.ErrPushUnsupported {
 				r.Fail("push-sent-while-disabled", "%s with AllowPush=false returned %q, want ErrPushUnsupported", a.Tag, a.Err)
@@ -608,7 +614,7 @@ func (w *srvWorld) checkC09(final bool) {
 			}
 			continue
 		}
-		if a.Invoke > w.connEnded() {
+		if a.Invoke > w.connEnded() && (w.restartSeq < 0 || a.Invoke < w.restartSeq) {
 			if a.Done && a.ErrV != jrpc2.ErrConnClosed {
 				r.Fail("wrong-error-after-close", "%s invoked at #%d, after the connection had ended (#%d), returned %q, want ErrConnClosed", a.Tag, a.Invoke, w.connEnded(), a.Err)
 				return
@@ -764,26 +770,58 @@ func (w *srvWorld) checkC09(final bool) {
 			byID[id] = append(byID[id], span{a.Tag, sentSeq[a.Tag], to})
 		}
 	}
-	// stray output: every response object the server sends answers a request
+	// stray output: a reply that matches no outstanding callback must provoke no
+	// response object bearing its id. Count, per id, the response objects sent
+	// against the client's own requests with that id; an excess on an id that a
+	// reply-shaped inbound member carried is an answer to that reply.
 	if w.push {
-		answered := map[*member]bool{}
-		for _, o := range w.out {
-			for _, ob := range o.Objs {
-				if ob.Method != "" {
-					continue
+		replyIDs := map[string]bool{}
+		for _, pr := range w.pushed {
+			if len(pr.Replies) > 0 {
+				replyIDs[pr.ID] = true
+			}
+		}
+		for _, msg := range w.msgs {
+			for _, m := range msg.Members {
+				if m.Kind == mReply && msg.Sent >= 0 {
+					replyIDs[m.ID] = true
 				}
-				var hit *member
-				for _, m := range w.memberByID(ob.ID) {
-					if m.Kind != mReply && !answered[m] && w.msgs[m.Msg].Arrive >= 0 && w.msgs[m.Msg].Arrive <= o.Seq {
-						hit = m
-						break
+			}
+		}
+		for _, e := range w.r.Sim.Events {
+			if e.Kind == "peer.reply" {
+				o := &outRec{Raw: e.S}
+				parseOut(o)
+				for _, ob := range o.Objs {
+					if ob.Method == "" && ob.ID != "" && ob.ID != "null" {
+						replyIDs[ob.ID] = true
 					}
 				}
-				if hit == nil {
-					r.Fail("stray-output-for-unmatched-reply", "the server sent %s, which answers no request of the client (a reply that matches no outstanding callback must be discarded silently)", o.Raw)
-					return
+			}
+		}
+		sentPerID := map[string]int{}
+		var example = map[string]string{}
+		for _, o := range w.out {
+			for _, ob := range o.Objs {
+				if ob.Method == "" && ob.ID != "" && ob.ID != "null" {
+					sentPerID[ob.ID]++
+					example[ob.ID] = o.Raw
 				}
-				answered[hit] = true
+			}
+		}
+		for _, id := range sortedKeys(sentPerID) {
+			if !replyIDs[id] {
+				continue
+			}
+			reqs := 0
+			for _, m := range w.memberByID(id) {
+				if m.Kind != mReply && w.msgs[m.Msg].Arrive >= 0 {
+					reqs++
+				}
+			}
+			if sentPerID[id] > reqs {
+				r.Fail("stray-output-for-unmatched-reply", "the server sent %d response objects with id %s but the client made only %d requests with that id; a reply that matches no outstanding callback must be discarded silently, not answered (e.g. %s)", sentPerID[id], id, reqs, example[id])
+				return
 			}
 		}
 	}
